@@ -34,6 +34,7 @@ Canon(t) ==
     [] t.s \in {"Annotated", "Str"} -> Canon(t.arg)
     [] t.s \in {"List", "list"} -> Cn("list", "", {Canon(t.arg)}, {})
     [] t.s = "Literal" -> Cn("lit", "", {}, RangeS(t.vals))
+    [] t.s = "typeof" -> Cn("typeof", "", {Canon(t.arg)}, {})      \* type[...]: the passed classes of what the argument denotes
     [] OTHER -> Cn("?", "", {}, {})
 
 Verdict ==
